@@ -115,6 +115,16 @@ def gen_cases(rng, tier):
             v = ("slice", rng.choice(leaves), rng.choice(leaves), rng.choice(leaves))
             alt = rng.choice([x for x in leaves if x != v[pos]])
             near_dup((3, 14), v, v[:pos] + (alt,) + v[pos + 1:], "slice-field%d" % pos)
+    # floating-point constants are bit patterns: NaNs with sign and payload, signalling NaNs, infinities, zeros, denormals - alone,
+    # as the halves of complex numbers, and twice (the writer's equality must not merge different patterns nor split equal ones)
+    pats = [0x7ff8000000000000, 0xfff8000000000000, 0x7ff80000deadbeef, 0xfff0000000000001, 0x7ff0000000000001, 0x7ff4000000000000,
+            0x7ff0000000000000, 0xfff0000000000000, 0x0000000000000000, 0x8000000000000000, 0x0000000000000001, 0x800fffffffffffff, 0x3ff0000000000000]
+    fl = [("float", struct.pack("<Q", b)) for b in pats]
+    cx = [("complex", struct.pack("<QQ", a, b)) for a, b in zip(pats, pats[1:] + pats[:1])] + [("complex", struct.pack("<QQ", b, b)) for b in pats[:4]]
+    for ver in ((3, 4), (3, 9), (3, 12), (3, 14)):
+        top = ("seq", b"(", tuple(fl + cx + [tuple(x) for x in fl[:6]] + [tuple(x) for x in cx[:4]]))
+        for fp in (0.0, 0.5, 1.0):
+            add(pm.header(ver) + pm.dumps(top, ver, rng, fp), ["float-patterns", "%d.%d" % ver, "flags%.1f" % fp], ver, top)
     # a flagged object of every kind ahead of shared objects: the numbering of all later references depends on its slot
     def leading(ver):
         ints = [struct.pack("<i", k) for k in range(300)]
